@@ -68,6 +68,7 @@ private:
     Rng rng_;
     std::vector<uint32_t> recorded_;
     uint64_t steps_ = 0, step_limit_ = 0, switches_ = 0, max_conc_ = 0;
+    int live_ = 0; // fibers spawned and not yet finished
     Digest sched_hash_;
     std::exception_ptr abort_error_;
     std::map<void *, int> mutex_owner_;
